@@ -307,6 +307,9 @@ func (c *Ctx) WriteEvidence(rule string, assumptions []string, realStub map[stri
 		cov["seams"] = c.sc.SeamSummary()
 		cov["scratch_build_s"] = c.sc.BuildSecs
 	}
+	if n, ok := e.Counters["traces_validated_against_impl"]; ok {
+		cov["traces_validated_against_impl"] = n
+	}
 	for k, v := range e.Extra {
 		cov[k] = v
 	}
